@@ -194,7 +194,13 @@ def _worker(arg):
             res["cks"][tag] = out
         # module-level function and fill_lower=False on a few windows (direct engine for dense output)
         for (i0, i1, j0, j1) in wins[:: max(1, len(wins) // 25)]:
-            a = api_matrix(fh, i0, i1, j0, j1, balance=False, fill_lower=False, chunksize=2)
+            try:
+                a = api_matrix(fh, i0, i1, j0, j1, balance=False, fill_lower=False, chunksize=2)
+            except Exception as ex:
+                a = np.full((max(i1 - i0, 0), max(j1 - j0, 0)), -1)
+                if len(res["fails"]) < 5:
+                    res["fails"].append({"window": [i0, i1, j0, j1], "chunk": "2", "fill_lower": False, "error": repr(ex)})
+                continue
             e = np.zeros((i1 - i0, j1 - j0), dtype=object)
             for r, c, v in zip(b1, b2, cnt):
                 if i0 <= r < i1 and j0 <= c < j1:
@@ -240,14 +246,19 @@ def run_spellings(ctx):
         for a in vals:
             for b_ in vals:
                 cases.append({"fn": "_process_slice", "n": n, "start": a, "stop": b_})
-                impl.append(list(mix._process_slice(slice(a, b_), n)))
+                try:
+                    impl.append(list(mix._process_slice(slice(a, b_), n)))
+                except Exception as e:
+                    impl.append([type(e).__name__, 0])
                 exprs.append(f"process_slice {C.opt(a, C.z)} {C.opt(b_, C.z)} {C.z(n)}")
         for s in range(-n - 2, n + 3):
             cases.append({"fn": "_process_slice scalar", "n": n, "s": s})
             try:
-                impl.append(("Some", tuple(mix._process_slice(s, n))))
+                impl.append(("Some", tuple(int(v) for v in mix._process_slice(s, n))))
             except IndexError:
                 impl.append(None)
+            except Exception as e:
+                impl.append(("Some", (type(e).__name__, 0)))
             exprs.append(f"process_scalar {C.z(s)} {C.z(n)}")
     model = C.coq_eval("From Cooler Require Import Model.Query.", exprs, tmpdir=ctx.tmp / "slices")
     for case, im, mo in zip(cases, impl, model):
@@ -299,12 +310,17 @@ def run_spellings(ctx):
             if got.shape != exp.shape or not (got == exp).all():
                 ctx.fail(case, {"got": got.tolist(), "expected": exp.tolist()}, None)
         for s in range(-n, n):
-            for form, got, exp in (("[s]", sel[s], F[s:s + 1 if s != -1 else None, :]),
-                                   ("[s, :]", sel[s, :], F[s:s + 1 if s != -1 else None, :]),
-                                   ("[:, s]", sel[:, s], F[:, s:s + 1 if s != -1 else None]),
-                                   ("[(s,)]", sel[(s,)], F[s:s + 1 if s != -1 else None, :])):
+            for form, getter, exp in (("[s]", lambda: sel[s], F[s:s + 1 if s != -1 else None, :]),
+                                      ("[s, :]", lambda: sel[s, :], F[s:s + 1 if s != -1 else None, :]),
+                                      ("[:, s]", lambda: sel[:, s], F[:, s:s + 1 if s != -1 else None]),
+                                      ("[(s,)]", lambda: sel[(s,)], F[s:s + 1 if s != -1 else None, :])):
                 case = {"fn": "matrix" + form, "n": n, "s": s}
                 ctx.case(case, kind="spelling")
+                try:
+                    got = getter()
+                except Exception as e:
+                    ctx.fail(case, {"error": repr(e), "expected": exp.tolist()}, None)
+                    continue
                 if got.shape != exp.shape or not (got == exp).all():
                     ctx.fail(case, {"got": got.tolist(), "expected": exp.tolist()}, None)
         os.unlink(path)
@@ -325,7 +341,10 @@ def run_spans(ctx):
     impl, exprs, expl = [], [], []
     for seq, step in cases:
         arr = np.array(seq, dtype=np.int64)
-        impl.append(arg_prune_partition(arr, step).tolist())
+        try:
+            impl.append(arg_prune_partition(arr, step).tolist())
+        except Exception as e:
+            impl.append([type(e).__name__])
         lo, hi = seq[0], seq[-1]
         cuts = np.linspace(lo, hi, 2 + (hi - lo) // step, dtype=int).tolist()
         exprs.append(f"(arg_prune_partition {C.zl(seq)} {C.z(step)}, prune_with_cuts {C.zl(seq)} {C.zl(cuts)}, linspace_int {C.z(lo)} {C.z(hi)} {C.z(2 + (hi - lo) // step)})")
@@ -342,7 +361,7 @@ def run_spans(ctx):
         else:
             ctx.compare("arg_prune_partition", case, im, exact)
         # oracle: admissible edges — strictly increasing, first 0, every row beyond the last edge is empty
-        ok = im == sorted(set(im)) and im[0] == 0 and 0 <= im[-1] < len(seq) and seq[im[-1]] == seq[-1]
+        ok = bool(im) and all(isinstance(v, int) for v in im) and im == sorted(set(im)) and im[0] == 0 and 0 <= im[-1] < len(seq) and seq[im[-1]] == seq[-1]
         if not ok:
             ctx.fail(case, {"got": im}, None)
     ctx.extra["linspace_float_rounding_differences"] = rounding
@@ -356,7 +375,10 @@ def run_spans(ctx):
         i0 = rng.randint(0, n); i1 = rng.randint(i0, n); j0 = rng.randint(0, n); j1 = rng.randint(j0, n)
         cs = rng.choice([1, 2, 3, 5, 10 ** 7])
         rd = CSRReader({"bin1_id": np.zeros(off[-1], dtype=np.int64), "bin2_id": np.zeros(off[-1], dtype=np.int64)}, np.array(off, dtype=np.int64))
-        got = [[int(a), int(b_)] for a, b_ in rd.get_spans((i0, i1, j0, j1), cs)]
+        try:
+            got = [[int(a), int(b_)] for a, b_ in rd.get_spans((i0, i1, j0, j1), cs)]
+        except Exception as e:
+            got = [[-1, -1]]
         lo, hi = off[i0], off[i1]
         cuts = np.linspace(lo, hi, 2 + (hi - lo) // cs, dtype=int).tolist()
         exact = [lo + (k * (hi - lo)) // (1 + (hi - lo) // cs) for k in range(2 + (hi - lo) // cs)]
@@ -372,7 +394,7 @@ def run_spans(ctx):
         if i1 - i0 >= 1 and j1 - j0 >= 1:
             ok = (len(got) == 0 and off[i0] == off[i1] and False) or (len(got) >= 0)
             if got:
-                ok = got[0][0] == i0 and all(a[1] == b_[0] for a, b_ in zip(got, got[1:])) and all(a < b_ for a, b_ in got) \
+                ok = got[0][0] == i0 and all(0 <= a <= i1 and 0 <= b_ <= i1 for a, b_ in got) and all(a[1] == b_[0] for a, b_ in zip(got, got[1:])) and all(a < b_ for a, b_ in got) \
                     and got[-1][1] <= i1 and off[got[-1][1]] == off[i1]
             else:
                 ok = off[i0] == off[i1]
